@@ -86,9 +86,15 @@ def real_content(rng, allow_binary=True):
     sign = rng.choice([0, 0x40])
     base = rng.choice([0x00, 0x10, 0x20])
     scale = rng.randint(0, 3)
-    el = rng.randint(0, 2)
-    e = rng.randrange(-20, 20)
-    eb = e.to_bytes(el + 1, "big", signed=True)
+    el = rng.randint(0, 3)
+    e = rng.choice([rng.randrange(-20, 20), rng.randrange(-20, 20), 0, 1, -1, 127, -128, 128, -129, 255, 256])
+    if el == 3:
+        # X.690 8.5.7.4 d): the next octet holds the number of exponent octets
+        n = rng.randint(max(1, (e.bit_length() + 8) // 8), 4)
+        eb = bytes([n]) + e.to_bytes(n, "big", signed=True)
+    else:
+        e = max(-(2 ** (8 * (el + 1) - 1)), min(2 ** (8 * (el + 1) - 1) - 1, e))
+        eb = e.to_bytes(el + 1, "big", signed=True)
     m = rng.randrange(1, 2 ** rng.choice([8, 16, 24, 32, 40, 48]))
     mb = m.to_bytes((m.bit_length() + 7) // 8, "big")
     return (bytes([0x80 | sign | base | (scale << 2) | el]) + eb + mb).hex()
